@@ -10,7 +10,11 @@ from typing import Any, Callable, Dict, List, Optional, Tuple
 
 from . import progs
 from .core import CorrBreak, Ctx, Outcome, Violation, pmap, stable_hash
-from .leanbuild import run_driver
+from .leanbuild import run_driver as _run_driver
+
+
+def run_driver(lines):
+    return _run_driver(lines, driver="MG/DriverEng.lean")
 
 # ------------------------------------------------------------------ validity / shrinking
 
@@ -70,8 +74,8 @@ def compare_streams(real: List[str], model: List[str]) -> Optional[Tuple[int, st
     """first differing line (index, real, model) or None; comparison stops after a RecursionError"""
     for k, (a, b) in enumerate(zip(real, model)):
         b = progs.canon_model_line(b)
-        if a == "GUARD":
-            return None
+        if a == "GUARD" or b == "UNMODELLED":
+            return None  # value guard tripped / the model declines (outside the modelled fragment)
         if a == "RecursionError" and b == "RecursionError":
             return None
         if a != b:
